@@ -3,6 +3,8 @@ import RTA.Lemmas.FpSound
 import RTA.Lemmas.TightFP
 import RTA.Lemmas.TightNP
 import RTA.Lemmas.Realisable
+import RTA.Lemmas.TightExists
+import RTA.Lemmas.TightExistsFP
 /-! # C18 — fully preemptive FP, non-preemptive FP and FIFO bounds are attained
 
 Proved here: the FIFO part, at full generality for task sets whose arrival curves are
@@ -42,6 +44,30 @@ theorem fifo_bound_is_tight (s : Sys) (hl : FifoLegal s) (ts : List (Arr × ℕ)
     (hreal : ∀ i, i < ts.length → RealisesFrom (ts.getD i default).1 (relsOf s i) t₀ L) (hRpos : 0 < R) :
     ∃ j, j < s.n ∧ MeetsBound s j R ∧ ∀ R', R' < R → ¬ MeetsBound s j R' :=
   fifo_bound_attained_from s hl ts hwf hc hcost limit R L t₀ hR hL hreal hRpos
+
+/-- C18 for FIFO in its existential form (sporadic tasks with release jitter, periodic tasks
+for `J = 0`): there IS a job set complying with the task models and a legal FIFO schedule of
+it in which some job has a response time exactly equal to the returned bound -/
+theorem fifo_bound_is_attained_by_some_schedule (ts : List (ℕ × ℕ × ℕ))
+    (hwf : ∀ p ∈ ts, 1 ≤ p.1 ∧ 1 ≤ p.2.2) (limit R : ℕ)
+    (hR : fifoRta (taskSetRB (sporadicSet ts)) limit = .ok R) (hRpos : 0 < R) :
+    ∃ s : Sys, FifoLegal s ∧ Compliant s (sporadicSet ts) ∧
+      ∃ j, j < s.n ∧ MeetsBound s j R ∧ ∀ R', R' < R → ¬ MeetsBound s j R' :=
+  fifo_tight_sporadic ts hwf limit R hR hRpos
+
+/-- C18 for fully preemptive FP in its existential form (sporadic tasks with release jitter;
+priorities = task indices; task `i` analysed): there IS a job set complying with the task
+models and a legal fully preemptive FP schedule of it in which some job of task `i` has a
+response time exactly equal to the returned bound -/
+theorem fp_preemptive_bound_is_attained_by_some_schedule (ts : List (ℕ × ℕ × ℕ)) (i : ℕ) (hi : i < ts.length)
+    (hwf : ∀ p ∈ ts, 1 ≤ p.1 ∧ 1 ≤ p.2.2) (limit R : ℕ)
+    (hR : fpPreemptive (.rbf (.sporadic (ts.getD i default).1 (ts.getD i default).2.1) (.scalar (ts.getD i default).2.2))
+      ((ts.take i).map fun p => RB.rbf (.sporadic p.1 p.2.1) (.scalar p.2.2)) limit = .ok R)
+    (hRpos : 0 < R) :
+    ∃ s : Sys, JlfpLegal s (hepFP s id) ∧ (∀ l x, ¬ s.np l x) ∧
+      Compliant s (sporadicSet (ts.take (i + 1))) ∧
+      ∃ j, j < s.n ∧ s.task j = i ∧ MeetsBound s j R ∧ ∀ R', R' < R → ¬ MeetsBound s j R' :=
+  fp_preemptive_tight_sporadic ts i hi hwf limit R hR hRpos
 
 /-- sporadic tasks with release jitter are realisable: the critical-instant sequence aligned
 at any `t₀ ≥ J` is admissible and has exactly `number_arrivals(Δ)` releases in `[t₀, t₀ + Δ)` -/
